@@ -176,6 +176,14 @@ FlatRefs(ops) ==
           [] Head(ops).k = "tuple" -> FlatRefs(Head(ops).ops)
           [] OTHER                 -> <<>>) \o FlatRefs(Tail(ops))
 
+\* the field every operand of a specialised node is held in / written in (lower-cased keyword; "" for list
+\* elements), in place: a reference routed into another field of the node shows here and nowhere else
+RECURSIVE OpsFields(_)
+OpsFields(ops) ==
+  IF ops = <<>> THEN <<>>
+  ELSE (CASE Head(ops).k = "tuple" -> <<Head(ops).f, "[">> \o OpsFields(Head(ops).ops) \o <<"]">>
+          [] OTHER                 -> <<Head(ops).f>>) \o OpsFields(Tail(ops))
+
 AttNodesOf(a) == [x \in 1..Len(a) |-> a[x].node]
 AttNamesOf(a) == [x \in 1..Len(a) |-> a[x].name]
 SiteOps(s)   == AttNodesOf(s.global) \o AttNodesOf(s.decl) \o AttNodesOf(s.func)
